@@ -233,7 +233,7 @@ def status_map(w, text, docs, events=False):
 
 def shard(ctx):
     rng = ctx.rng("c15")
-    o = gen.Opts(types=True, calls=False, vars=True, max_rules=3, max_lines=3)
+    o = gen.Opts(types=True, calls=False, vars=True, max_rules=3, max_lines=3, some_lets=True)
     nbase = 110 if ctx.quick else 3500
     for t in range(nbase):
         doc = gen.gen_doc(rng)
@@ -278,6 +278,61 @@ def shard(ctx):
                 what = "abstraction step %s changed verdicts (base, variant) %s" % (detail, diff)
             ctx.violation(sig, "%s\n--- base\n%s--- variant\n%s--- doc %s" % (what, base_text, text, docs[:300]),
                           {"kind": "pair", "a": base_text, "b": text, "data": docs})
+    # ---- every reference to a variable sees the same value (file / rule / block level; query, `some` query,
+    #      filtered query, literal list and function-call bindings)
+    n3 = 120 if ctx.quick else 4000
+    o3 = gen.Opts(filters=True)
+    for t in range(n3):
+        doc = gen.gen_doc(rng)
+        docs = json.dumps(doc)
+        q, v = gen.gen_walk(rng, doc, o3, 3, allow_filter=rng.random() < 0.4)
+        q = gen.head_fix(q, True)
+        kind = rng.choice(["query", "somequery", "somequery", "literal", "function"])
+        if kind == "literal":
+            bind = ["lit", [gen._pick_scalar_like(rng, None, o3) for _ in range(rng.randint(1, 3))]]
+        elif kind == "function":
+            bind = ["fn", rng.choice(["to_upper", "to_lower", "parse_string", "count"]), [["query", q]]]
+        else:
+            bind = [kind, q]
+        rest = []
+        if kind in ("query", "somequery") and isinstance(v, (dict, list)) and v and rng.random() < 0.5:
+            rest, _ = gen.gen_walk(rng, v if isinstance(v, dict) else rng.choice(v), o3, 2, allow_filter=False)
+            rest = [p_ for p_ in rest if p_[0] in ("key", "all", "idx")]
+        op = rng.choice(["exists", "empty", "is_string", "==", "==", "in", "!="])
+        opneg = False
+        if op == "!=":
+            op, opneg = "==", True
+        if op in ("==", "in"):
+            rhs = gen.gen_rhs_lit(rng, v if not isinstance(v, (list, dict)) else None, o3, op)
+        else:
+            rhs = None
+        cl = gen.clause([["var", "sv"]] + rest, op, rhs, opneg=opneg, some=rng.random() < 0.15)
+        level = rng.choice(["file", "rule", "block"])
+        if level == "file":
+            P = {"lets": [["sv", bind]], "default": [], "rules": [gen.rule("r%d" % i, [[gen.clone(cl)]]) for i in range(3)]}
+            names = ["r0", "r1", "r2"]
+        elif level == "rule":
+            P = {"lets": [], "default": [], "rules": [gen.rule("r0", [[gen.clone(cl)]], lets=[["sv", gen.clone(bind)]]),
+                                                      gen.rule("r1", [[gen.clone(cl)], [gen.clone(cl)], [gen.clone(cl)]], lets=[["sv", gen.clone(bind)]])]}
+            names = ["r0", "r1"]
+        else:
+            def blk(k):
+                return {"t": "when", "cond": [[gen.clause([["this"]], "exists", None)]], "lets": [["sv", gen.clone(bind)]], "body": [[gen.clone(cl)] for _ in range(k)]}
+            P = {"lets": [], "default": [], "rules": [gen.rule("r0", [[blk(1)]]), gen.rule("r1", [[blk(3)]])]}
+            names = ["r0", "r1"]
+        text = gen.pfile(P)
+        st, res = status_map(ctx.w, text, docs, events=True)
+        ctx.res.cases += 1
+        ctx.res.counts["samevalue@%s" % level] += 1
+        if not isinstance(st, dict):
+            ctx.inconclusive("samevalue-" + ("crash" if st == "crash" else "error"))
+            continue
+        got = [st.get(nm) for nm in names]
+        if len(set(got)) != 1:
+            ctx.violation("samevalue:%s:%s" % (level, kind), "identical clauses on one variable (%s-level, %s binding) evaluate differently: %s\n%s--- doc %s" % (level, kind, got, text, docs[:300]),
+                          {"kind": "samevalue", "a": text, "names": names, "data": docs})
+        else:
+            ctx.res.distinct.add(("samevalue", level, kind, got[0]))
     # ---- inline
     n = 150 if ctx.quick else 5000
     for t in range(n):
@@ -317,6 +372,12 @@ def shard(ctx):
 
 
 def replay(case, w):
+    if case.get("kind") == "samevalue":
+        st, _ = status_map(w, case["a"], case["data"])
+        if not isinstance(st, dict):
+            return True, "error"
+        got = [st.get(n) for n in case["names"]]
+        return len(set(got)) == 1, str(got)
     sa, _ = status_map(w, case["a"], case["data"])
     sb, _ = status_map(w, case["b"], case["data"])
     if case.get("only") and isinstance(sa, dict) and isinstance(sb, dict):
@@ -332,7 +393,8 @@ def main(tier, seed):
     c = res.counts
     levels = sum(1 for k in ("lit@file", "lit@rule", "lit@block", "prefix@file", "prefix@rule", "prefix@block") if c[k] >= (200 if tier == "thorough" else 40))
     floor = {"cases": (res.cases, 3000), "transform_x_scope_levels": (levels, 6), "unused": (c["unused@file"] + c["unused@rule"] + c["unused@block"], 100),
-             "inline": (c["inline"], 100), "shadow": (c["shadow@block"], 20)}
+             "inline": (c["inline"], 100), "shadow": (c["shadow@block"], 20),
+             "samevalue": (c["samevalue@file"] + c["samevalue@rule"] + c["samevalue@block"], 300)}
     return core.finish("C15", tier, seed, res, t0,
                        rule="every (sampled, <=12 per program) abstraction site of random programs x one document: literal->%v at file/rule/block scope, "
                             "query prefix->%v in a same-context scope, all-references variant, unused lets, shadowing, and inlining of parameterised-rule calls; "
